@@ -47,12 +47,13 @@ class Contract:
 	assume_pure_calls: list[str] = field(default_factory=list)
 	max_paths: int = 4000
 	consts: dict[str, Any] = field(default_factory=dict)  # named constants usable in clause text
+	dispatch: str | None = None  # dynamic class of the receiver (virtual dispatch of self.m()); key becomes qualname@dispatch
 	bounded_ensures: list[str] = field(default_factory=list)  # clauses checked only by the bounded twin (never counted as proved)
 	lets: dict[str, str] = field(default_factory=dict)  # named abbreviations over the pre-state, usable in every clause
 
 	@property
 	def key(self) -> tuple[str, str]:
-		return self.file, self.qualname
+		return self.file, self.qualname + (f'@{self.dispatch}' if self.dispatch else '')
 
 
 @dataclass
@@ -61,7 +62,7 @@ class External:
 	name: str
 	params: list[tuple[str, str]]
 	ret: str
-	axioms: list[str] = field(default_factory=list)  # universally closed over the parameters named in each axiom's `forall`
+	axioms: list[Any] = field(default_factory=list)  # closed clause text, or ({var: type}, text) universally quantified
 	raises: dict[str, str | None] = field(default_factory=dict)
 	note: str = ''
 
@@ -123,7 +124,7 @@ def contract(file: str, qualname: str, props: str | list[str], **kw: Any) -> Con
 	return c
 
 
-def external(name: str, params: list[tuple[str, str]], ret: str, axioms: list[str] | None = None, raises: dict[str, str | None] | None = None, note: str = '') -> External:
+def external(name: str, params: list[tuple[str, str]], ret: str, axioms: list[Any] | None = None, raises: dict[str, str | None] | None = None, note: str = '') -> External:
 	e = External(name, params, ret, axioms or [], raises or {}, note)
 	REG.externals[name] = e
 	return e
